@@ -902,6 +902,7 @@ func (fv *FuncVC) callAsserts(keys []string, ord int, args []*Val, callee *ssa.F
 		env := &Env{fv: fv, st: fv.cur, old: fv.entry, vars: map[string]*Val{}, locals: true, at: fv.curBlock, allocOld: fv.heapEntry("alloc", "Int")}
 		for k, v := range fv.params {
 			env.vars[k] = v
+			env.vars["entry_"+k] = v // the value the function was called with (a parameter is an assignable local)
 		}
 		fv.bindFreeVars(env, fv.cur)
 		for i, a := range args {
